@@ -85,6 +85,9 @@ func (w *writer) Flush() (n int, err error) {
 		switch {
 		case !w.vx.cursorNext.visible && w.vx.cursorLast.visible:
 			return w.w.Write([]byte(decrst(cursorVisibility)))
+		case !w.vx.cursorNext.visible:
+			// hidden and stays hidden, wherever it was last requested
+			return 0, nil
 		case w.vx.cursorNext.row != w.vx.cursorLast.row:
 			return w.w.Write([]byte(w.vx.showCursor()))
 		case w.vx.cursorNext.col != w.vx.cursorLast.col:
